@@ -172,15 +172,19 @@ package graph
 //@ func newGraph funcvalues=pure nosafety
 //@   loop 2
 //@     invariant grows: forall x *Node :: atloop(2, has(seenNode, x)) ==> has(seenNode, x)
+//@     invariant edges_grow: forall e nodePair :: atloop(2, has(seenEdge, e)) ==> has(seenEdge, e)
 //@   callsite Node.AddToEdgeDiv edgeargs: $arg0 == parent && $arg1 == n && $arg0 != nil && $arg0 != $arg1 && $arg2 == dw && $arg3 == w && $arg4 == residual && $arg5 == (ni != len(locNodes) - 1)
 //@   callsite Node.addSample weights: $arg1 == dw && $arg2 == w && !(dw == 0 && w == 0) && ($arg7 ==> $arg0 == parent && !residual)
 //@   callsite Node.addSample cumonce: $arg7 || !atiter(3, has(seenNode, $arg0))
+//@   callsite Node.AddToEdgeDiv edgeonce: forall e nodePair :: e.src == $arg1 && e.dest == $arg0 ==> !atiter(3, has(seenEdge, e))
 //@   loop 1
 //@     mustcall joinLabels processed: true when !(dw == 0 && w == 0)
 //@     mustcall Node.addSample flat: $arg7 when !(dw == 0 && w == 0) && parent != nil && !residual
 //@   loop 3
 //@     mustcall Node.addSample cum: !$arg7 && $arg0 == n when n != nil && !atiter(3, has(seenNode, n))
 //@     invariant grows_inner: forall x *Node :: atloop(2, has(seenNode, x)) ==> has(seenNode, x)
+//@     invariant edges_grow_inner: forall e nodePair :: atloop(2, has(seenEdge, e)) ==> has(seenEdge, e)
+//@     step edge_recorded: forall e nodePair :: (atiter(3, has(seenEdge, e)) ==> has(seenEdge, e)) && (n != nil && iter(parent) != nil && n != iter(parent) && e.src == n && e.dest == iter(parent) ==> has(seenEdge, e))
 
 // ---- C04 (strengthened after seeded change call-tree-drops-unsymbolized-locations): in the call-tree builder every
 // location of a sample is visited with at least one (possibly empty) line, so unsymbolized frames are kept ----
@@ -204,3 +208,18 @@ package graph
 // itself was declared (non-zero weight), so no edge starts at an undeclared node ----
 //@ func builder.addNodelets nosafety funcvalues=pure
 //@   callsite builder.numericNodelets declared: w != 0
+
+// ---- C04: which nodes make it into the graph. A node is dropped only when it is nil, when both its cum and flat are
+// zero, or (drop-negative) when it is negative; every other node is kept, in order ----
+//@ func selectNodesForGraph
+//@   ensures result != nil
+//@   ensures only: forall k int :: 0 <= k && k < len(result.Nodes) ==> result.Nodes[k] != nil && !(result.Nodes[k].Cum == 0 && result.Nodes[k].Flat == 0)
+//@   ensures from_input: forall k int :: 0 <= k && k < len(result.Nodes) ==> exists i int :: 0 <= i && i < len(nodes) && nodes[i] == result.Nodes[k]
+//@   ensures all_kept: !dropNegative ==> forall i int :: 0 <= i && i < len(nodes) && nodes[i] != nil && !(nodes[i].Cum == 0 && nodes[i].Flat == 0) ==> exists k int :: 0 <= k && k < len(result.Nodes) && result.Nodes[k] == nodes[i]
+//@   loop 1
+//@     invariant 0 <= $i && $i <= len(nodes) && len(gNodes) <= $i
+//@     invariant only: forall k int :: 0 <= k && k < len(gNodes) ==> gNodes[k] != nil && !(gNodes[k].Cum == 0 && gNodes[k].Flat == 0)
+//@     invariant from_input: forall k int :: 0 <= k && k < len(gNodes) ==> exists i int :: 0 <= i && i < $i && nodes[i] == gNodes[k]
+//@     invariant all_kept: !dropNegative ==> forall i int :: 0 <= i && i < $i && nodes[i] != nil && !(nodes[i].Cum == 0 && nodes[i].Flat == 0) ==> exists k int :: 0 <= k && k < len(gNodes) && gNodes[k] == nodes[i]
+//@     invariant frame: forall i int :: 0 <= i && i < len(nodes) ==> nodes[i] == old(nodes[i])
+//@     invariant sep: fresh(gNodes) && (len(nodes) == 0 || !fresh(nodes))
